@@ -79,8 +79,19 @@ def verify_contract(world, c, cache=None, max_paths=4000, limits=None):
             ctx.ghost[g] = build(sh, it, 'g_' + g)
         if c.setup is not None:
             c.setup(it, env)
+        for name, ex in c.defs.items():
+            f = spec_eval(it, ex, env)
+            f.nested = True
+            env.set(name, f)
         for name, ex in c.let.items():
             env.set(name, spec_eval(it, ex, env))
+        if c.known:
+            def hook(name, c=c, it=it, env=env):
+                for key, pred in c.known.items():
+                    if name == key or name.startswith(key):
+                        return spec_bool(it, pred, env)
+                return None
+            ctx.known_hook = hook
         for r in c.requires:
             ctx.assume(spec_bool(it, r, env))
         if not ctx.feasible():
@@ -138,11 +149,15 @@ def verify_contract(world, c, cache=None, max_paths=4000, limits=None):
 # discharge
 
 def check_obligation(ob, timeout_ms=10000):
-    """-> (verdict, backend, seconds, model)   verdict in discharged / refuted / unknown"""
+    """-> (verdict, backend, seconds, model)
+    verdict: discharged | refuted (model of the exact formula) | candidate (model of the instantiated,
+    weaker formula: needs confirmation by replay) | unknown"""
+    from .explore import has_quantifier
     t0 = time.time()
     g = z3.simplify(ob.goal)
     if z3.is_true(g):
         return 'discharged', 'simplifier', time.time() - t0, None
+    quant = has_quantifier(ob.goal) or any(has_quantifier(h) for h in ob.hyps)
     s = z3.Solver()
     s.set('timeout', timeout_ms)
     for h in ob.hyps:
@@ -154,13 +169,24 @@ def check_obligation(ob, timeout_ms=10000):
         return 'discharged', 'z3', dt, None
     if r == z3.sat:
         return refine(ob, s, dt, timeout_ms)
-    # second opinion: cvc5 on the SMT-LIB text
+    cand = None
+    if quant:
+        from .inst import inst_check
+        r1, model, dt1 = inst_check(ob.hyps, ob.goal, timeout_ms)
+        dt += dt1
+        if r1 == 'unsat':
+            return 'discharged', 'z3+instantiation', dt, None
+        if r1 == 'sat':
+            cand = model
+    # second opinion: cvc5 on the SMT-LIB text of the exact formula
     from .cvc5_backend import cvc5_check
-    r2, dt2 = cvc5_check(s.to_smt2(), timeout_ms * 3)
+    r2, dt2 = cvc5_check(s.to_smt2(), min(timeout_ms, 10000) if cand is not None else timeout_ms)
     if r2 == 'unsat':
         return 'discharged', 'cvc5', dt + dt2, None
     if r2 == 'sat':
-        return 'refuted', 'cvc5', dt + dt2, None
+        return 'refuted', 'cvc5', dt + dt2, cand
+    if cand is not None:
+        return 'candidate', 'z3+instantiation', dt + dt2, cand
     return 'unknown', 'z3+cvc5:' + s.reason_unknown(), dt + dt2, None
 
 
@@ -212,6 +238,70 @@ def discharge(rep, timeout_ms=10000):
     for ob in rep.obligations:
         rep.results.append((ob,) + check_obligation(ob, timeout_ms))
     return rep
+
+
+_POOL_STATE = {}
+
+
+def _pool_check(i):
+    reps, timeout_ms = _POOL_STATE['reps'], _POOL_STATE['timeout']
+    ri, oi = _POOL_STATE['index'][i]
+    rep = reps[ri]
+    ob = rep.obligations[oi]
+    try:
+        verdict, backend, dt, model = check_obligation(ob, timeout_ms)
+    except Exception as e:      # noqa
+        return i, 'unknown', 'error:%r' % (e,), 0.0, None, None
+    inputs = mtxt = None
+    if verdict in ('refuted', 'candidate') and model is not None:
+        mtxt = str(model)[:2000]
+        if rep.inputs is not None:
+            try:
+                inputs = {k: concretize(v, model) for k, v in rep.inputs.items()}
+            except Exception as e:      # noqa
+                inputs = {'__error__': repr(e)}
+    return i, verdict, backend, dt, inputs, mtxt
+
+
+def discharge_parallel(reps, timeout_ms=10000, jobs=16):
+    """Discharge all obligations of several FunctionReports in a fork pool (terms are inherited by the
+    children; only verdicts and concretised inputs travel back).  Identical (hyps, goal) pairs are
+    checked once.  Fills rep.summary = list of dicts (one per obligation instance)."""
+    import multiprocessing as mp
+    index, uniq, alias = [], {}, {}
+    for ri, rep in enumerate(reps):
+        rep.summary = [None] * len(rep.obligations)
+        for oi, ob in enumerate(rep.obligations):
+            key = (tuple(sorted(h.get_id() for h in ob.hyps)), ob.goal.get_id())
+            if key in uniq:
+                alias[(ri, oi)] = uniq[key]
+            else:
+                uniq[key] = len(index)
+                alias[(ri, oi)] = len(index)
+                index.append((ri, oi))
+    _POOL_STATE.update(reps=reps, timeout=timeout_ms, index=index)
+    n = len(index)
+    if n == 0:
+        return
+    if jobs > 1 and n > 4:
+        ctx = mp.get_context('fork')
+        with ctx.Pool(min(jobs, n)) as pool:
+            out = pool.map(_pool_check, range(n), chunksize=max(1, n // (jobs * 8)))
+    else:
+        out = [_pool_check(i) for i in range(n)]
+    res = {i: (v, b, dt, inp, m) for i, v, b, dt, inp, m in out}
+    for ri, rep in enumerate(reps):
+        for oi, ob in enumerate(rep.obligations):
+            j = alias[(ri, oi)]
+            v, b, dt, inp, m = res[j]
+            first = index[j] == (ri, oi)
+            d = {'name': ob.name, 'verdict': v, 'backend': b, 't': round(dt, 4) if first else 0.0, 'line': ob.line,
+                 'kind': ob.kind, 'info': ob.info, 'path': list(ob.path or ())}
+            if inp is not None:
+                d['inputs'] = inp
+            if m is not None:
+                d['model'] = m
+            rep.summary[oi] = d
 
 
 # --------------------------------------------------------------------------
